@@ -253,7 +253,7 @@ def seg_text(w: World, code: str, rnd: random.Random, style: str) -> Dict[str, s
     if code[0] in "CJ":
         kind = "cssph" if code[0] == "C" else "jsph"
         variant = "multi" if code.endswith("m") else "one"
-        if not code.endswith("m") and style in ("special", "mixed") and rnd.random() < 0.12:
+        if not code.endswith("m") and style in ("special", "mixed") and rnd.random() < 0.04:
             variant = "multi"
         forms = w.ph_forms[(kind, variant)] or w.ph_forms[(kind, "one")]
         if not w.ph_forms[(kind, variant)]:
@@ -698,11 +698,31 @@ def core(chk: Check, maxlen: int, rounds: int, ntraces: int) -> None:
 
 
 def run(tier: str) -> int:
+    import threading
     chk = Check(PID, tier, "model_checking")
     w = World.get()
     quick = tier == "quick"
-    refinement(chk, 4 if quick else 6, workers=min(4 if quick else 8, _procs()))
-    core(chk, maxlen=4 if quick else 5, rounds=3 if quick else 4, ntraces=2500 if quick else 20000)
+    # the design-level run (theorems, B refines A) does not touch the code: run it beside the replay
+    side = Check(PID, tier, "model_checking", silent=True)
+    err: List[BaseException] = []
+
+    def design() -> None:
+        try:
+            refinement(side, 4 if quick else 6, workers=min(4, _procs()))
+        except BaseException as e:  # re-raised in the main thread
+            err.append(e)
+    th = threading.Thread(target=design)
+    th.start()
+    try:
+        core(chk, maxlen=4 if quick else 5, rounds=3 if quick else 4, ntraces=2500 if quick else 20000)
+    finally:
+        th.join()
+    if err:
+        raise err[0]
+    for k in ("states", "transitions"):
+        chk.add(k, side.cov.get(k, 0))
+    chk.cov["refinement_documents"] = side.cov["refinement_documents"]
+    chk.cov["refinement_max_len"] = side.cov["refinement_max_len"]
     chk.cov["exhaustive"] = True
     chk.cov["channel_unavailable"] = w.unavailable
     chk.cov["rule"] = ("TLC enumerates every segment sequence of length <= N over the 9-symbol alphabet (theorems of "
